@@ -46,6 +46,18 @@ _MUTABLE = (dict, list, set, bytearray)
 _IMMUTABLE_GLOBALS = (type, types.ModuleType, types.FunctionType, types.BuiltinFunctionType, types.MethodType, str, bytes, int, float,
                       complex, tuple, frozenset, bool, type(None), re.Pattern, property, staticmethod, classmethod, type(Ellipsis))
 _shared = {"built": False}
+# (e) functions that name one of the interpreter-wide settings or registries of the standard library: state that is shared
+#     by every thread although it lives in none of the library's modules (and that a set / try / finally-restore leaves
+#     equal before and after, so that nothing is ever left to learn from)
+INTERPRETER_WIDE_NAMES = frozenset([
+    "set_int_max_str_digits", "setrecursionlimit", "setswitchinterval", "settrace", "setprofile", "setcheckinterval", "setdlopenflags",
+    "environ", "putenv", "unsetenv", "chdir", "umask", "setlocale", "register", "register_error", "unregister", "filterwarnings",
+    "simplefilter", "resetwarnings", "showwarning", "catch_warnings", "setdefaulttimeout", "seed", "setstate", "tempdir", "excepthook",
+    "displayhook", "path_hooks", "meta_path", "path_importer_cache", "modules", "setrlimit", "setitimer", "alarm", "setcontext",
+    "localcontext", "getcontext", "set_debug", "set_threshold", "disable", "enable", "freeze", "purge", "_cache", "field_size_limit",
+    "stdout", "stderr", "stdin", "builtins", "__builtins__", "setdefault_timeout", "install_opener", "RegisterNamespace", "register_namespace",
+    "_namespace_map",
+])
 from . import coldstate as _coldstate  # noqa: E402
 _learned = _coldstate.learned()
 
@@ -181,7 +193,8 @@ def frame_is_hot(frame):
     static = cache.get(code)
     if static is None:
         names = set(code.co_names)
-        static = bool(names & _shared["mutable_globals"].get(frame.f_globals.get("__name__"), set()))
+        static = bool(names & _shared["mutable_globals"].get(frame.f_globals.get("__name__"), set())) or \
+            bool(names & INTERPRETER_WIDE_NAMES)
         if not static and code.co_freevars:
             loc = frame.f_locals
             static = any(isinstance(loc.get(fv), _MUTABLE) for fv in code.co_freevars)
@@ -221,10 +234,21 @@ class _Worker(object):
         self.error = None
         self.thread = None
         self.hot_yields = 0
+        self.sleep_until = 0      # not scheduled before the run's total step count has reached this
+        self.sleep_code = None    # the code object it went to sleep in
+        self.countdown = 0        # > 0: forced pre-emption after that many further line events (rendezvous)
 
 
 class Baton(object):
-    def __init__(self, fns, rng=None, quanta=None, p_hot=0.5, p_warm=0.02, p_cold=0.005, opcodes=True, opcodes_all=False):
+    def __init__(self, fns, rng=None, quanta=None, p_hot=0.5, p_warm=0.02, p_cold=0.005, opcodes=True, opcodes_all=False, p_sleep=0.0):
+        # long suspensions: a thread pre-empted inside a hot function it has entered only a few times in this run (a rarely
+        # executed piece of code that touches shared state) may be put to SLEEP while the others make a few hundred to a few
+        # ten thousand steps - under uniform random choice at every pre-emption point a thread never stays parked that long;
+        # a thread that arrives in the function another one sleeps in wakes it and goes to sleep itself (rendezvous)
+        self.p_sleep = p_sleep
+        self.calls = {}           # (tid, code) -> number of frames of that code entered by that thread in this run
+        self.sleeps = 0
+        self.rendezvous = 0
         self.opcodes = opcodes or opcodes_all
         self.opcodes_all = opcodes_all      # per-bytecode pre-emption in EVERY html5lib frame, not only in hot ones
         self.workers = [_Worker(i, fn) for i, fn in enumerate(fns)]
@@ -289,6 +313,11 @@ class Baton(object):
                         if w.quantum_left <= 0:
                             baton._yield(w, frame, hot)
                     return local
+                if w.countdown:
+                    w.countdown -= 1
+                    if not w.countdown:
+                        baton._yield(w, frame, True)
+                        return local
                 if baton.rng.random() < p:
                     baton._yield(w, frame, hot)
                 return local
@@ -314,6 +343,16 @@ class Baton(object):
             if fn.startswith(XML_DIR):
                 return budget_only
             if fn.startswith(prefix):
+                if baton.p_sleep:
+                    code = frame.f_code
+                    key = (w.tid, code)
+                    baton.calls[key] = baton.calls.get(key, 0) + 1
+                    if baton.replay is None:
+                        for o in baton.workers:
+                            if o.sleep_code is code and o is not w and o.sleep_until > baton.total_steps:
+                                # another thread sleeps inside this very function: stop within its first few lines
+                                w.countdown = baton.rng.randint(1, 4)
+                                break
                 if frame_is_hot(frame):
                     if baton.opcodes:
                         frame.f_trace_opcodes = True
@@ -338,6 +377,24 @@ class Baton(object):
             self.hot_preemptions += 1
             w.hot_yields += 1
             self.order_digest.append((w.tid, name, frame.f_lineno))
+            if self.p_sleep and self.replay is None and self.calls.get((w.tid, frame.f_code), 0) <= 3:
+                code = frame.f_code
+                partner = None
+                for o in others:
+                    if o.sleep_code is code and o.sleep_until > self.total_steps:
+                        partner = o
+                        break
+                if partner is not None:
+                    if self.rng.random() < 0.8:
+                        partner.sleep_until = 0
+                        partner.sleep_code = None
+                        w.sleep_until = self.total_steps + self.rng.choice([3000, 30000])
+                        w.sleep_code = code
+                        self.rendezvous += 1
+                elif self.rng.random() < self.p_sleep:
+                    w.sleep_until = self.total_steps + self.rng.choice([3000, 30000])
+                    w.sleep_code = code
+                    self.sleeps += 1
         self.sched_sem.release()
         w.sem.acquire()
 
@@ -413,7 +470,16 @@ class Baton(object):
                     w = alive[0]
                     w.quantum_left = None
             else:
-                w = alive[self.rng.randrange(len(alive))] if len(alive) > 1 else alive[0]
+                if self.p_sleep:
+                    awake = [x for x in alive if x.sleep_until <= self.total_steps]
+                    if not awake:
+                        first = min(alive, key=lambda x: (x.sleep_until, x.tid))
+                        first.sleep_until = 0
+                        first.sleep_code = None
+                        awake = [first]
+                else:
+                    awake = alive
+                w = awake[self.rng.randrange(len(awake))] if len(awake) > 1 else awake[0]
             self._cur_steps = 0
             w.sem.release()
             if not self.sched_sem.acquire(timeout=WORKER_WALL_S):
@@ -439,6 +505,15 @@ SHARED_DOCS = [
 ]
 
 
+# documents that run into limits of the INTERPRETER (settings shared by all threads): a numeric reference with more digits
+# than int() converts by default (sys.get_int_max_str_digits(), 4300), the same in hexadecimal
+# (no very deep nesting here: 300 nested formatting elements cost millions of traced steps and would need a budget of their own)
+LIMIT_DOCS = [
+    ["a &#", "0" * 4400, "65; b"], ["<p>x&#", "1" * 4500, ";y"], ["&#x", "0" * 5000, "41;"], ["<a title='&#", "9" * 4350, ";'>t</a>"],
+    ["<table><td>&#", "7" * 4400, "; z"], ["<div>" * 40, "&#", "3" * 4400, ";"], ["&#", "2" * 4301, ";"], ["&#", "2" * 4300, ";"],
+]
+
+
 def _stream_op(rng, c12, builder):
     hexdoc, args = rng.choice(c12.BYTE_DOCS)
     pad = b"<!--" + bytes([rng.choice(b"xyzw")]) * rng.randint(900, 3000) + b"-->" if rng.random() < 0.7 else b""
@@ -460,6 +535,20 @@ def gen_case(rng):
         return {"prop": "C12", "stream": "M3", "threads": threads, "cold": rng.random() < 0.5,
                 "sched_seed": rng.getrandbits(48), "p_hot": rng.choice([0.5, 0.2, 0.05]),
                 "p_cold": rng.choice([0.005, 0.001, 0.02]), "opcodes": rng.random() < 0.3}
+    if rng.random() < 0.08:
+        # every thread works on a document that runs into one of the interpreter's limits
+        for _ in range(n_threads):
+            ops = []
+            for _ in range(rng.randint(1, 2)):
+                op = {"op": "api_parse", "doc": list(rng.choice(LIMIT_DOCS)), "builder": rng.choice(["etree", "dom"]), "ns": True}
+                if rng.random() < 0.3:
+                    op["reuse"] = True
+                ops.append(op)
+            threads.append({"ops": ops})
+        return {"prop": "C12", "stream": "M3", "threads": threads, "cold": rng.random() < 0.5,
+                "sched_seed": rng.getrandbits(48), "p_hot": rng.choice([0.5, 0.5, 0.2]),
+                "p_cold": rng.choice([0.005, 0.02]), "opcodes": rng.random() < 0.5, "opcodes_all": rng.random() < 0.15,
+                "p_sleep": rng.choice([0.0, 0.5, 0.8])}
     for _ in range(n_threads):
         ops = []
         for _ in range(rng.randint(1, 3)):
@@ -508,7 +597,9 @@ def gen_case(rng):
             "opcodes": rng.random() < 0.5,
             # ... and some trace EVERY html5lib frame per bytecode: a window inside one line of code that nothing marks as
             # touching shared state
-            "opcodes_all": rng.random() < 0.08}
+            "opcodes_all": rng.random() < 0.08,
+            # long suspensions inside rarely executed hot code (see Baton.__init__)
+            "p_sleep": rng.choice([0.0, 0.0, 0.4, 0.8])}
 
 
 def _api_tb(builder):
@@ -690,7 +781,7 @@ def execute(case):
         b = Baton(fns, quanta=[tuple(q) for q in case["quanta"]], opcodes=opcodes, opcodes_all=opcodes_all)
     else:
         b = Baton(fns, rng=random.Random(case["sched_seed"]), p_hot=case.get("p_hot", 0.5), p_cold=case.get("p_cold", 0.005),
-                  opcodes=opcodes, opcodes_all=opcodes_all)
+                  opcodes=opcodes, opcodes_all=opcodes_all, p_sleep=case.get("p_sleep", 0.0))
     results, errors = b.run()
     res["quanta"] = [list(q) for q in b.taken]
     res["_case"] = case
@@ -699,6 +790,11 @@ def execute(case):
     P["preemptions"] += b.preemptions
     P["hot_preemptions"] += b.hot_preemptions
     P["io_preemptions"] += b.io_preemptions
+    if b.sleeps:
+        P["long_suspension_in_rare_hot_code"] += b.sleeps
+        stats["faults"]["long_suspension_in_rare_hot_code"] = b.sleeps
+    if b.rendezvous:
+        P["rendezvous_in_rare_hot_code"] += b.rendezvous
     if b.io_preemptions:
         stats["faults"]["preemption_inside_source_read"] = b.io_preemptions
     if case["cold"] and b.hot_preemptions:
